@@ -709,7 +709,8 @@ impl Headers {
         let all = [head, body].concat();
         let (ps, rest) = strict_all(&all);
         let in_cls = named(&last.hs, b"content-length");
-        let in_cl = in_cls.len();
+        // fingerprint by what was actually emitted: more than one Content-Length line on the wire
+        let in_cl = header_lines(head).map(|(_, l)| named(&l, b"content-length").len()).unwrap_or(in_cls.len());
         // equal duplicates are the known shape; disagreeing ones must never be forwarded at all
         let num = |v: &[u8]| String::from_utf8_lossy(v).trim_start_matches('0').to_string();
         let cl_agree = in_cls.windows(2).all(|w| num(&w[0].1) == num(&w[1].1));
@@ -1167,9 +1168,9 @@ impl Area for Headers {
     }
     fn cases(&self, thorough: bool) -> u64 {
         if thorough {
-            120_000
+            600_000
         } else {
-            12_000
+            30_000
         }
     }
     fn corpus(&self) -> Vec<Vec<String>> {
